@@ -70,6 +70,17 @@ class SymKernel(BaseKernel):
             self.st.assume(("le", x - Sym(hi)))
         return x
 
+    def number_token(self, name, style=0):
+        """(value, text): a symbolic number and the opaque token that stands for its text."""
+        v = self._var(name)
+        return v, format(v, "")
+
+    def install_tokens(self):
+        """Shadow float/int in the repository's parser modules so that number tokens read back as their symbols."""
+        from gsv.engine import tokens
+        r = self.r
+        tokens.install([r.vertex, r.edge_odometry, r.edge_landmark, r.g2o_parameters, r.graph])
+
     def unit_quat(self, name):
         x, y, z, w = [self._var(name + c) for c in "xyzw"]
         wv = self.st.pc.by_name[name + "w"]
@@ -338,20 +349,18 @@ def linear_membership(st, target, gens, points=3, seed=1, multipliers=None):
         return True
     if not gens:
         return False
-    # monomial basis
-    monos = set(target.t)
-    for g in gens:
-        monos |= set(g.t)
-    monos = sorted(monos)
-    idx = {m: i for i, m in enumerate(monos)}
-    # solve  sum c_i g_i = target  coefficient-wise (exact, sparse Gaussian elimination over Q)
-    rows = [[Fraction(0)] * (len(gens) + 1) for _ in monos]
-    for j, g in enumerate(gens):
+    # solve  sum c_i g_i = target  coefficient-wise: exact SPARSE elimination over Q (unknowns = generators, one
+    # equation per monomial)
+    rows = {}
+    for j_, g in enumerate(gens):
         for m, c in g.t.items():
-            rows[idx[m]][j] = Fraction(c)
+            rows.setdefault(m, {})[j_] = Fraction(c)
+    RHS = len(gens)
     for m, c in target.t.items():
-        rows[idx[m]][len(gens)] = Fraction(c)
-    sol = _solve_exact(rows, len(gens))
+        if m not in rows:
+            return False            # a monomial of the target that no generator has
+        rows[m][RHS] = Fraction(c)
+    sol = _solve_sparse(rows, len(gens))
     if sol is None:
         return False
     resid = target
@@ -359,6 +368,59 @@ def linear_membership(st, target, gens, points=3, seed=1, multipliers=None):
         if c != 0:
             resid = resid - g.scale(c)
     return P.nf(resid).is_zero()
+
+
+def _solve_sparse(rows, nvars):
+    """rows: dict key -> {col: value} with column nvars the right-hand side.  Returns one solution or None."""
+    RHS = nvars
+    bycol = {}
+    for key, row in rows.items():
+        for c in row:
+            if c != RHS:
+                bycol.setdefault(c, set()).add(key)
+    pivots = {}        # col -> row key
+    used = set()
+    for col in range(nvars):
+        cand = [k_ for k_ in bycol.get(col, ()) if k_ not in used]
+        if not cand:
+            continue
+        pk = min(cand, key=lambda k_: len(rows[k_]))
+        prow = rows[pk]
+        pv = prow[col]
+        if pv != 1:
+            for c in list(prow):
+                prow[c] = prow[c] / pv
+        used.add(pk)
+        pivots[col] = pk
+        for ok in list(bycol.get(col, ())):
+            if ok == pk:
+                continue
+            orow = rows[ok]
+            f = orow.get(col)
+            if not f:
+                continue
+            for c, v in prow.items():
+                nv = orow.get(c, 0) - f * v
+                if nv == 0:
+                    if c in orow:
+                        del orow[c]
+                        if c != RHS:
+                            bycol[c].discard(ok)
+                else:
+                    if c not in orow and c != RHS:
+                        bycol.setdefault(c, set()).add(ok)
+                    orow[c] = nv
+    for key, row in rows.items():
+        if key in used:
+            continue
+        if RHS in row and row[RHS] != 0 and len(row) == 1:
+            return None
+        if RHS in row and row[RHS] != 0 and all(c == RHS for c in row):
+            return None
+    sol = [Fraction(0)] * nvars
+    for col, pk in pivots.items():
+        sol[col] = rows[pk].get(RHS, Fraction(0))
+    return sol
 
 
 def _solve_exact(rows, nvars):
@@ -416,6 +478,7 @@ def run_symbolic(fn, repo, eager=False, cert_backends=("z3",), max_paths=MAX_PAT
         st.eager = eager
         st.light_only = light
         st.decider = smt.decider
+        st.range_oracle = smt.range_oracle
         symscipy.reset_ghost(solver_model)
         k = SymKernel(repo, st)
         rec = {"trail": None, "goals": []}
@@ -445,6 +508,16 @@ def run_symbolic(fn, repo, eager=False, cert_backends=("z3",), max_paths=MAX_PAT
         except RecursionError as e:
             rec["unsupported"] = "recursion: %s" % e
             status = "unknown" if status != "failed" else status
+        except Exception as e:      # noqa: BLE001
+            # an exception raised BY THE REPOSITORY CODE (innermost frame in the repository tree) where the obligation
+            # expected a normal return is an observation (failed goal); anything else is a checker error
+            import traceback
+            tb = traceback.extract_tb(e.__traceback__)
+            inner = tb[-1].filename if tb else ""
+            if not inner.startswith(repo.path.rstrip("/") + "/"):
+                raise
+            k.goals.append({"label": "the repository code raised where a normal return was expected", "kind": "returns", "status": "failed",
+                            "n": 1, "backend": "execution", "detail": "%s: %s at %s:%s" % (type(e).__name__, e, inner, tb[-1].lineno)})
         rec["trail"] = list(st.trail)
         rec["goals"] = k.goals
         rec["n_hyps"] = len(st.hyps)
